@@ -18,6 +18,8 @@ B1 == <<"r", "sub", "b.json">>
 C1 == <<"r", "sub", "deep", "c.json">>
 D1 == <<"o", "d.json">>
 W1 == <<"r", "sub", "w.json">>
+PctName == <<"r", "pet%20v2.json">>
+SpaceName == <<"r", "pet v2.json">>
 
 (* relative path from the directory of file f to file g *)
 RECURSIVE StripCommon(_, _)
@@ -150,6 +152,15 @@ Shapes(k, st) ==
                Slot(Root, k, "B", RefC(R(Root, Root, k, "C", st))), Slot(Root, k, "C", Conc("rootC", <<>>)),
                Slot(A1, k, "C", Conc("extC", <<>>))>>, R(Root, Root, k, "A", st), k)],
     [shape |-> "sameroot", u |-> U(<<Slot(Root, k, "X", Conc("X", <<>>))>>, R(Root, Root, k, "X", st), k)]}
+   \cup
+   \* file and directory names that contain a LITERAL percent sign followed by two hex digits ("pet%20v2.json", a directory "%2e%2e"): the
+   \* reference spells the percent sign %25, and the location it designates is the literal name -- not the name decoded once more
+   \* ("pet v2.json", "..": files that exist as well, and that nobody refers to)
+   {[shape |-> "pctname", u |-> U(<<Slot(PctName, k, "X", Conc("X", <<>>)), Slot(SpaceName, k, "X", Conc("Decoy", <<>>))>>, R(Root, PctName, k, "X", st), k)],
+    [shape |-> "pctname_whole", u |-> U(<<Slot(PctName, k, "", Conc("W", <<>>)), Slot(SpaceName, k, "", Conc("Decoy", <<>>))>>, RW(Root, PctName, st), k)],
+    [shape |-> "spacename", u |-> U(<<Slot(PctName, k, "X", Conc("Other", <<>>)), Slot(SpaceName, k, "X", Conc("X", <<>>))>>, R(Root, SpaceName, k, "X", st), k)],
+    [shape |-> "pctdir", u |-> U(<<Slot(<<"r", "sub", "%2e%2e", "k.json">>, k, "X", Conc("X", <<>>)), Slot(<<"r", "k.json">>, k, "X", Conc("Decoy", <<>>))>>,
+                                 R(Root, <<"r", "sub", "%2e%2e", "k.json">>, k, "X", st), k)]}
    \cup
    \* a whole-file reference made by the root itself to a childless object, for EVERY kind (also the kinds without child sites)
    {[shape |-> "wholefile_plain", u |-> U(<<Slot(W1, k, "", Conc("W", <<>>))>>, RW(Root, W1, st), k)]}
@@ -461,7 +472,7 @@ PathItemShapes(st) ==
 HistoryEntries == {"resolvein", "file_abs_toggled", "resolvein_toggled", "file_abs_retry", "resolvein_retry", "resolvein_again"}
 Entries == {"file_abs", "file_rel", "datapath", "file_rel_default", "uri_remote", "file_abs_reuse", "file_abs_prior", "data", "reader"} \cup HistoryEntries
 
-Heavy == {"deepback", "deepback_named", "wholedef", "wholedef_ref", "wholedef_reffrag", "wholedef_via",
+Heavy == {"pctname", "pctname_whole", "spacename", "pctdir", "deepback", "deepback_named", "wholedef", "wholedef_ref", "wholedef_reffrag", "wholedef_via",
           "rootchild_whole", "sameref_twofiles", "samelocal_twofiles", "child_brokenfile", "rootdef_childbroken", "rootdef_child"}      \* (shape families with many members: sliced by clauses of their own)
 QuickSlice(sh, st, e, pos) ==
    \/ (st \in {"plain", "abspath", "http"} /\ e = "file_abs" /\ sh.shape \notin Heavy)
@@ -472,6 +483,7 @@ QuickSlice(sh, st, e, pos) ==
    \/ (sh.shape \in {"direct", "child", "sameroot"} /\ st = "plain" /\ e \in {"file_abs_retry", "resolvein_retry"} /\ pos = "op")
    \/ (sh.shape \in {"direct", "child", "wholefile", "pi_direct", "pi_local", "pi_wholefile_plain", "pi_child"} /\ st = "plain" /\ e = "resolvein_again" /\ pos \in {"op", "op2"})
    \/ (sh.shape = "localalias_childlocal" /\ st = "plain" /\ e = "data" /\ pos = "op")
+   \/ (sh.shape \in {"pctname", "pctname_whole", "spacename", "pctdir"} /\ st \in {"plain", "abspath"} /\ e \in {"file_abs", "file_rel", "data", "file_rel_default"} /\ pos = "op")
    \/ (sh.shape \in {"rootchild_whole", "sameref_twofiles", "samelocal_twofiles", "child_brokenfile", "rootdef_childbroken", "rootdef_child"}
        /\ st = "plain" /\ e = "file_abs" /\ pos = "op")
    \/ (sh.shape \in {"rootchild_whole", "wholefile_plain"} /\ st = "plain" /\ e \in {"data", "resolvein", "file_rel"} /\ pos = "op")
@@ -504,7 +516,8 @@ QuickSlice(sh, st, e, pos) ==
 NewFamilies == Heavy \cup {"wholefile_plain", "localalias_childlocal", "childpair", "childpair_root", "childpair_local", "pi_childpair", "deepback2"}
 ThoroughSlice(sh, st, e, pos) ==
    /\ (sh.shape \in NewFamilies => e \in {"file_abs", "file_rel", "datapath", "data", "uri_remote"}
-                                     \/ (sh.shape \in {"wholefile_plain", "rootchild_whole"} /\ e = "resolvein"))
+                                     \/ (sh.shape \in {"wholefile_plain", "rootchild_whole"} /\ e = "resolvein")
+                                     \/ (sh.shape \in {"pctname", "pctname_whole", "spacename", "pctdir"} /\ e = "file_rel_default"))
    /\ (sh.shape \in NewFamilies /\ st \notin RelStyles => e = "file_abs")
    /\ (sh.shape \in {"deepback", "deepback_named"} /\ ~sh.canon => st = "plain" /\ e \in {"file_abs", "data"})
    /\ (e \in HistoryEntries => st = "plain" /\ (sh.shape \notin NewFamilies \/ (sh.shape \in {"wholefile_plain", "rootchild_whole"} /\ e = "resolvein"))
